@@ -13,6 +13,9 @@ GROUPS.append(G("rep_MACRO_local_balance", SRC, "h_MACRO_local_balance", enforce
                 object_bits=12, defs=["-DSTRINGSIZE=64"], functions=["MACRO_Processor", "MACRO_Restorer"], bounded="body of at most 3 lines (list walk unwound)"))
 GROUPS.append(G("rep_IRPN_count", "harness/C20/h_as_include.c", "h_IRPN_count", enforce=[], link=["asmdef.c", "strcomp.c"], stubs=["stubs/gerr.c"], unwind=8, timeout=600, dfcc=False,
                 object_bits=12, defs=["-DSTRINGSIZE=64"], functions=["ProcessIRPNArgs"]))
+GROUPS.append(G("rep_ExpandSHIFT", SRC, "h_ExpandSHIFT", enforce=[], link=["asmdef.c"], stubs=["stubs/gerr.c"], unwind=8, timeout=600, dfcc=False,
+                object_bits=12, defs=["-DSTRINGSIZE=64"], functions=["ExpandSHIFT"], replace_calls=["ComputeMacroStrings:verif_ComputeMacroStrings"],
+                bounded="SHIFT directly in the macro body or one REPT/IRP level deep"))
 for e in ("IsValidParameterName", "SetToken"):
     GROUPS.append(G("sub_" + e, "harness/C19/h_asmsub.c", "h_" + e, enforce=[], link=[], stubs=["stubs/gerr.c"], unwind=4, timeout=300,
                     dfcc=False, object_bits=12, functions=[e, "CompressLine_NErl"] if e == "IsValidParameterName" else [e]))
